@@ -759,7 +759,9 @@ template <class T> static void caseEigen(Case& cs) {
     const LD eps = epsOf<T>(), d = dimf(n, n), nA = fro(A);
     auto wit = [&] { return cs.desc().set("normA", (double)nA).set("condX", (double)kX).set("scale", (double)scale); };
     Vector_<CT> vals0;
+    std::unique_ptr<Eigen> fresh;                       // untouched copy: tells a sequence defect from a plain one
     if (mode == 3 || r.coin(0.3)) {                     // values only, first
+        guard(cs, "copy", [&] { fresh.reset(new Eigen(*e)); });
         if (!guard(cs, n == 0 ? "compute" : "getAllEigenValues", [&] { e->getAllEigenValues(vals0); }, n == 0 ? "empty" : "")) return;
     }
     Vector_<CT> vals; Matrix_<CT> vecs;
@@ -781,22 +783,38 @@ template <class T> static void caseEigen(Case& cs) {
     if (n == 0) { c.require(cs.key("shape", "getAllEigenValuesAndVectors", "empty"), true, [&] { return cs.desc(); }); return; }
     LM L = fromSimTK<CT>(vals), V = fromSimTK<CT>(vecs);
     const std::string seq = vals0.size() ? "after-values-only" : "";
-    if (!seq.empty() && !allFinite(V)) {               // same defect as the wrong vectors below: uninitialized output
-        c.viol(cs.key("eigdefect", "vectors", seq), wit().set("what", "NaN/Inf in eigenvectors")); return; }
-    if (!finiteOrViol(cs, "getAllEigenValuesAndVectors", L) || !finiteOrViol(cs, "getAllEigenValuesAndVectors", V)) return;
-    LM AV = mul(A, V);
-    for (int j = 0; j < n; ++j) {
-        LD nv = fro(col(V, j)), res = 0;
-        for (int i = 0; i < n; ++i) res += cabs2(AV(i, j) - cmul(L(j, 0), V(i, j)));
-        res = std::sqrt(res);
-        // attribute: LapackInterface::geev<real> treats |Im lambda| < 1e-6 (absolute) as a real eigenvalue
-        std::string det = seq;
-        if (!cplx && L(j, 0).imag() != 0 && std::abs(L(j, 0).imag()) < (LD)1e-6) det = seq.empty() ? "complex-pair-with-tiny-imaginary-part" : seq;
-        const std::string opn = det.empty() ? "vector-norm" : "vectors", opr = det.empty() ? "A.v-is-not-lambda.v" : "vectors";
-        c.require(cs.key(det.empty() ? "eig" : "eigdefect", opn, det), nv > 0.5 && nv < 2, [&] { return wit().set("column", j).set("norm", (double)nv).set("what", "norm of eigenvector not 1"); });
-        chk(cs, cs.key(det.empty() ? "eig" : "eigdefect", opr, det), (double)res, (double)(C_ORT * d * eps * nA * std::max(nv, (LD)1)),
-                [&] { return wit().set("column", j).set("re_lambda", (double)L(j, 0).real()).set("im_lambda", (double)L(j, 0).imag()); });
+    // judge eigenpairs column by column; 'skip' marks columns that are already wrong on the untouched
+    // copy (they are reported there, under their own key, and say nothing about the call sequence)
+    auto judgeVectors = [&](const LM& Lx, const LM& Vx, const std::string& sq, std::vector<char>& bad, const std::vector<char>* skip) {
+        bad.assign(n, 0);
+        if (!sq.empty() && !allFinite(Vx)) {           // same defect as wrong vectors: uninitialized output
+            c.viol(cs.key("eigdefect", "vectors", sq), wit().set("what", "NaN/Inf in eigenvectors")); return; }
+        if (!finiteOrViol(cs, "getAllEigenValuesAndVectors", Lx) || !finiteOrViol(cs, "getAllEigenValuesAndVectors", Vx)) return;
+        LM AV = mul(A, Vx);
+        for (int j = 0; j < n; ++j) {
+            if (skip && (*skip)[j]) { c.obs("eigen.sequence-column-not-judged(already wrong on fresh copy)"); continue; }
+            LD nv = fro(col(Vx, j)), res = 0;
+            for (int i = 0; i < n; ++i) res += cabs2(AV(i, j) - cmul(Lx(j, 0), Vx(i, j)));
+            res = std::sqrt(res);
+            // attribute: LapackInterface::geev<real> treats |Im lambda| < 1e-6 (absolute) as a real eigenvalue
+            std::string det = sq;
+            if (sq.empty() && !cplx && Lx(j, 0).imag() != 0 && std::abs(Lx(j, 0).imag()) < (LD)1e-6) det = "complex-pair-with-tiny-imaginary-part";
+            const std::string opn = det.empty() ? "vector-norm" : "vectors", opr = det.empty() ? "A.v-is-not-lambda.v" : "vectors";
+            bool ok1 = c.require(cs.key(det.empty() ? "eig" : "eigdefect", opn, det), nv > 0.5 && nv < 2, [&] { return wit().set("column", j).set("norm", (double)nv).set("what", "norm of eigenvector not 1"); });
+            bool ok2 = chk(cs, cs.key(det.empty() ? "eig" : "eigdefect", opr, det), (double)res, (double)(C_ORT * d * eps * nA * std::max(nv, (LD)1)),
+                    [&] { return wit().set("column", j).set("re_lambda", (double)Lx(j, 0).real()).set("im_lambda", (double)Lx(j, 0).imag()); });
+            if (!ok1 || !ok2) bad[j] = 1;
+        }
+    };
+    std::vector<char> badFresh, badSeq;
+    if (!seq.empty() && fresh) {
+        Vector_<CT> fv; Matrix_<CT> fm;
+        if (std::is_same<T, std::complex<double> >::value) fm.resize(n, n);
+        if (guard(cs, "getAllEigenValuesAndVectors", [&] { fresh->getAllEigenValuesAndVectors(fv, fm); }) && fv.size() == n && fm.nrow() == n && fm.ncol() == n)
+            judgeVectors(fromSimTK<CT>(fv), fromSimTK<CT>(fm), "", badFresh, nullptr);
     }
+    judgeVectors(L, V, seq, badSeq, badFresh.size() == (size_t)n ? &badFresh : nullptr);
+    if (!allFinite(L) || !allFinite(V)) return;
     // the eigenvalue sets (both calls): sum = trace; every value near a constructed eigenvalue (Bauer-Fike)
     auto judgeValues = [&](const LM& Lv, const std::string& op) {
         LC tr(0), sum(0); for (int i = 0; i < n; ++i) { tr += A(i, i); sum += Lv(i, 0); }
